@@ -57,6 +57,10 @@ type harness struct {
 	lastAdded   *sigRec
 }
 
+// wideAssets > 0 (Config "wide_assets"): initial allocations of the run have
+// that many assets (big channels whose states take several KiB).
+var wideAssets int
+
 func newHarness(prop string, n, own, appKind int, res *kernel.Result, trace bool) *harness {
 	h := &harness{prop: prop, n: n, own: own, appKind: appKind, res: res, trace: trace,
 		accs: gen.Pool(n), ledger: map[[3]uint64]struct{}{}}
@@ -442,6 +446,9 @@ func (h *harness) doOp(st *kernel.Step) {
 	case "init":
 		r := kernel.NewRand(kernel.Derive(uint64(st.Int("r")), "init"))
 		sh := gen.RandShape(r, h.n)
+		if wideAssets > 0 {
+			sh.Assets, sh.Huge = wideAssets, false
+		}
 		alloc := gen.Allocation(r, sh)
 		var data channel.Data = channel.NoData()
 		kind := st.Str("kind")
